@@ -6,10 +6,8 @@ import (
 	"os"
 	"path/filepath"
 	"sort"
-	"strconv"
 	"strings"
 	"sync"
-	"syscall"
 	"time"
 
 	"grog/internal/cmd/cmds"
@@ -772,7 +770,7 @@ func (w *wbuild) invoke(m *Machine, req BuildReq, opts InvOpts, arm func(p *simr
 	if b, err := os.ReadFile(logPath); err == nil {
 		res.Log = string(b)
 	}
-	closeDescriptorsOf(logPath)
+
 	w.mu.Lock()
 	res.Events = append([]ExecEvent(nil), w.events[first:]...)
 	for inv, l := range w.live {
@@ -789,25 +787,5 @@ func (w *wbuild) invoke(m *Machine, req BuildReq, opts InvOpts, arm func(p *simr
 func removeOutputs(ws string, s *Spec) {
 	for _, o := range s.Outs {
 		os.RemoveAll(filepath.Join(ws, s.Pkg, o.Path))
-	}
-}
-
-// closeDescriptorsOf closes every descriptor of this (worker) process that refers to path. zap
-// opens its log sinks itself and grog never closes them - the operating system does when the
-// process ends. The simulated processes share one OS process, so the harness does it for them
-// (the tasks of an ended simulated process never run again, nothing can use the descriptor).
-func closeDescriptorsOf(path string) {
-	ents, err := os.ReadDir("/proc/self/fd")
-	if err != nil {
-		return
-	}
-	for _, e := range ents {
-		n, err := strconv.Atoi(e.Name())
-		if err != nil || n < 3 {
-			continue
-		}
-		if t, err := os.Readlink("/proc/self/fd/" + e.Name()); err == nil && strings.TrimSuffix(t, " (deleted)") == path {
-			syscall.Close(n)
-		}
 	}
 }
